@@ -472,6 +472,14 @@ def run(pid: str, tier: str) -> int:
     for d in range(4):
         jobs.append(('prefix' if pid == 'C01' else 'plain', f'long{d}', d,
                      (d + sd) % 4, longest_auction(d)))
+    # long auctions that end somewhere in the middle: the longest auction cut after
+    # a bid / a double / a redouble, then closed by three passes (lengths around
+    # every power of two up to 256 and a few more)
+    full = longest_auction(0)
+    cuts = sorted({c for c in range(4, len(full)) if full[c - 1] != PASS
+                   and any(abs(c + 3 - n) <= 4 for n in (16, 32, 64, 100, 128, 130, 200, 255, 256, 258, 300))})
+    for j, c in enumerate(cuts):
+        jobs.append(('plain', f'mid{j}', (j + sd) % 4, (j // 4) % 4, full[:c] + [PASS] * 3))
     # the openings C02 names explicitly
     k = 0
     for d in range(4):
